@@ -42,7 +42,7 @@ def run(ctx):
     thms = ctx.build_and_audit(["NutsProofs.Props.C13"])
     required = ["fact_sweep_threshold", "fact_transaction_helper_shape", "fact_rollback_deletes_created_did",
                 "fact_nuts_not_found_is_uncommitted", "fact_web_commit_cannot_fail", "fact_version_is_latest_plus_one",
-                "fact_sweep_handles_whole_transaction", "old_iscommitted_blocks_sweep", "old_rollback_blocks_retry", "old_sweep_splits_transaction"]
+                "fact_sweep_handles_whole_transaction", "fact_deactivation_renders_as_published", "old_iscommitted_blocks_sweep", "old_rollback_blocks_retry", "old_sweep_splits_transaction"]
     required += REQUIRED_DEEP
     for r in required:
         if not any(t.endswith("Props." + r) for t in thms):
@@ -176,6 +176,20 @@ def run(ctx):
             published_all = (not nuts_enabled) or (bad_op.get("fault") == "stop" and "nuts" in order[:bad_op.get("k", 0)])
             if fired:
                 stats["cut:" + ("kept" if published_all else "abandoned")] += 1
+            if fired and published_all and bad_op.get("fault") == "stop":
+                # a change that WAS published by every method is never rolled back: after the sweep every DID of the subject
+                # shows exactly what it showed right after the stop (the new version), and the real IsCommitted said yes
+                def shown(o):
+                    return {s: ([(d[0], d[1], d[2], d[3], d[4]) for d in v["dids"]], v["err"]) for s, v in o[3].items()}
+                va, vq = shown(bad_obs), shown(post)
+                sname = bad_op["subj"]
+                if va.get(sname) != vq.get(sname):
+                    report("C13:published-change-rolled-back-by-sweep", f"subject {sname}: after the stop {va.get(sname)} after the sweep {vq.get(sname)} "
+                           f"({bad_op['kind']}, stop k={bad_op.get('k')}, commit order {order})", w)
+                said_no = [op.get("nutsno") for op in w["ops"][b + 1:pi + 1] if op["op"] == "sweep" and op.get("nutsno")]
+                if said_no and nuts_enabled:
+                    report("C13:published-change-rolled-back-by-sweep", f"did:nuts IsCommitted answered 'not committed' for a change whose did:nuts Commit had returned "
+                           f"({bad_op['kind']}, stop k={bad_op.get('k')})", w)
             if fired and not published_all:
                 # every DID shows what it showed before; a rolled-back create leaves nothing behind
                 def view(o):
